@@ -266,7 +266,7 @@ def _worker(args):
                             sigs[v.sig] = {"case": case, "sig": v.sig, "msg": v.msg}
                     if ctx._nontrivial:
                         ctx.hashes.append(case_hash(case))
-                    if len(ctx.samples) < 2 and ctx._nontrivial and idx % 997 == shard:
+                    if len(ctx.samples) < 2 and ctx._nontrivial:
                         ctx.samples.append({"labels": sorted(set(ctx._labels)), "case": case})
             except HarnessError as he:
                 out["harness_error"] = str(he)
